@@ -195,7 +195,7 @@ func checkTreeInvariants(view string, t *crdt.Tree, excluded *int) *kit.Failure 
 	toks := xmlTokenize(xml)
 	inner := toks[1 : len(toks)-1]
 	for i := 0; i <= n; i++ {
-		if mixed && !kit.NoExclusions() && mixedBoundary(inner, i) {
+		if mixed && excluding("FINDPOS-MIXED") && mixedBoundary(inner, i) {
 			continue // FINDPOS-MIXED, see applyFree
 		}
 		pos, err := t.FindPos(i)
@@ -227,7 +227,7 @@ func checkTreeInvariants(view string, t *crdt.Tree, excluded *int) *kit.Failure 
 		if mixed {
 			continue
 		}
-		if left != parent && left.IsText() && !kit.NoExclusions() {
+		if left != parent && left.IsText() && excluding("TOPATH-TOMBSTONE") {
 			// TOPATH-TOMBSTONE: TreePosToPath takes the raw child offset of a text
 			// node (tombstones included) but sums over the visible children only,
 			// so ToPath is wrong (or panics) when a tombstoned sibling precedes the
@@ -489,6 +489,125 @@ func balanced(inner []tok, from, to int) bool {
 	return depth == 0
 }
 
+// mergePropagateRisk reports whether deleting [from,to) would hit finding
+// MERGE-PROPAGATE: the range fully contains a live element A that physically
+// holds the tombstone X of an earlier merge source, while a live node that the
+// merge moved out of X (MergedFrom == X) lives outside A. Tree.Edit then also
+// tombstones that moved node (propagateMergeDeletes runs for every collected
+// node, also for a tombstone collected only because its parent is deleted).
+func mergePropagateRisk(t *crdt.Tree, from, to int) bool {
+	if from == to {
+		return false
+	}
+	root := t.Root()
+	var moved []*crdt.TreeNode
+	var walk func(n *crdt.TreeNode)
+	walk = func(n *crdt.TreeNode) {
+		if n.IsRemoved() {
+			return // only visible nodes can be lost
+		}
+		if n.MergedFrom != nil {
+			moved = append(moved, n)
+		}
+		if !n.IsText() {
+			for _, c := range n.Children(true) {
+				walk(c)
+			}
+		}
+	}
+	walk(root)
+	visible := func(n *crdt.TreeNode) bool {
+		for ; n != nil; n = parentOf(n) {
+			if n.IsRemoved() {
+				return false
+			}
+		}
+		return true
+	}
+	for _, n := range moved {
+		_, x := t.NodeMapByID.Floor(n.MergedFrom)
+		if x == nil || !x.ID().Equal(n.MergedFrom) || !x.IsRemoved() {
+			continue
+		}
+		for a := parentOf(x); a != nil && a != root; a = parentOf(a) {
+			if !visible(a) {
+				continue
+			}
+			inside := false // is n below a?
+			for q := parentOf(n); q != nil; q = parentOf(q) {
+				if q == a {
+					inside = true
+				}
+			}
+			if inside {
+				continue
+			}
+			p := parentOf(a)
+			left := p
+			for _, c := range p.Children() {
+				if c == a {
+					break
+				}
+				left = c
+			}
+			start, err := t.ToIndex(p, left)
+			if err != nil {
+				return true
+			}
+			if from <= start && start+a.Index.PaddedLength() <= to {
+				return true
+			}
+		}
+	}
+	return false
+}
+
+// rangeNarrowingRisk reports whether Edit(from,to) would hit finding
+// RANGE-NARROWING: from's left sibling is an element with an earlier split
+// sibling (InsNextID chain) that lives in to's parent while from's own parent
+// is a different node. Tree.Edit then "narrows" the collected range to start
+// after that split sibling, which can lie before from, and deletes live content
+// outside [from,to).
+func rangeNarrowingRisk(t *crdt.Tree, from, to int) bool {
+	if from == to {
+		return false
+	}
+	nodesAt := func(i int) (parent, left *crdt.TreeNode) {
+		pos, err := t.FindPos(i)
+		if err != nil {
+			return nil, nil
+		}
+		parent, left = t.ToTreeNodes(pos)
+		if parent != nil && left != nil && left != parent {
+			parent = parentOf(left)
+		}
+		return parent, left
+	}
+	fp, fl := nodesAt(from)
+	tp, _ := nodesAt(to)
+	if fp == nil || tp == nil || fl == nil || fl == fp || fl.IsText() || fp == tp {
+		return false
+	}
+	for cur, hops := fl, 0; cur.InsNextID != nil && hops < 1000; hops++ {
+		_, next := t.NodeMapByID.Floor(cur.InsNextID)
+		if next == nil || next.ID().CreatedAt.Compare(cur.InsNextID.CreatedAt) != 0 || next.IsText() {
+			return false
+		}
+		if parentOf(next) == tp {
+			return true
+		}
+		cur = next
+	}
+	return false
+}
+
+func parentOf(n *crdt.TreeNode) *crdt.TreeNode {
+	if n.Index.Parent == nil {
+		return nil
+	}
+	return n.Index.Parent.Value
+}
+
 // applyFree performs an arbitrary edit or style call; only from<=to within
 // 0..Len is guaranteed (that is all json.Tree validates). When the edit does
 // not split (splitLevel 0) and the range is balanced (every tag in it has its
@@ -502,7 +621,7 @@ func applyFree(w *world, t *yjson.Tree, s Step, descOut *string, prefix string) 
 	toks := xmlTokenize(before)
 	inner := toks[1 : len(toks)-1]
 	haveModel := len(inner) == n // otherwise Len() is already off; the invariant check reports it
-	if haveModel && !kit.NoExclusions() {
+	if haveModel && excluding("FINDPOS-MIXED") {
 		moved := false
 		if mixedBoundary(inner, from) {
 			from++
@@ -518,6 +637,14 @@ func applyFree(w *world, t *yjson.Tree, s Step, descOut *string, prefix string) 
 		if moved {
 			w.count("excluded:FINDPOS-MIXED")
 		}
+	}
+	if s.Op == "fedit" && excluding("MERGE-PROPAGATE") && mergePropagateRisk(t.Tree, from, to) {
+		to = from // keep the insertion, drop the deletion
+		w.count("excluded:MERGE-PROPAGATE")
+	}
+	if s.Op == "fedit" && excluding("RANGE-NARROWING") && rangeNarrowingRisk(t.Tree, from, to) {
+		to = from
+		w.count("excluded:RANGE-NARROWING")
 	}
 	if s.Op == "fstyle" {
 		key := []string{"b", "i"}[s.C%2]
@@ -582,6 +709,7 @@ func applyFree(w *world, t *yjson.Tree, s Step, descOut *string, prefix string) 
 }
 
 func evalTree(c Case, trace bool) verdict {
+	setAllowed(c)
 	w, err := newWorld(trace, func(r *yjson.Object) {
 		r.SetNewTree("tr", yjson.TreeNode{Type: "doc", Children: []yjson.TreeNode{
 			{Type: "p", Children: []yjson.TreeNode{{Type: "text", Value: "ab"}}},
@@ -665,7 +793,7 @@ func evalTree(c Case, trace bool) verdict {
 			}
 		}
 		if remoteBad != nil {
-			if kit.NoExclusions() {
+			if !excluding("REMOTE-INCONSISTENT") {
 				remoteBad.Msg = fmt.Sprintf("before step %d: %s", si, remoteBad.Msg)
 				w.logf("FAIL %s", remoteBad.Error())
 				return w.finish(remoteBad, false)
